@@ -959,3 +959,62 @@ Section Disp.
     - subst i. lia.
   Qed.
 End Disp.
+
+(* ---- a bare URI without parameters ----------------------------------------------------------------------------------------------------------- *)
+Section Bare.
+  Variable h : N.
+  Notation it := (fb_iter h).
+  Definition fB (i0 lu : N) : pfrom := mkpfrom pf0 (mkpf i0 lu) pf0 false false false h 0 0 pf0 (mkpf i0 lu) EOk 0 FbFIN 0 0 0 0 0.
+  Definition sB1 (i0 : N) : pfrom := mkpfrom pf0 pf0 pf0 false false false 0 0 0 pf0 (mkpf i0 0) EOk 0 FbNameOrURI i0 0 0 0 0.
+  Definition sB2 (i0 lu : N) : pfrom := mkpfrom pf0 (mkpf i0 lu) pf0 false false false 0 0 0 pf0 (mkpf i0 lu) EOk 0 FbNameOrURIEnd i0 0 0 0 0.
+  Lemma bare_first (pre0 : list byte) n0 (name z : list byte) i0 : nchar0 n0 -> Forall nchar name ->
+    run it pre0 ((n0 :: name) ++ z) i0 0 pfrom0 = run it (rev (n0 :: name) ++ pre0) z (i0 + nnat (length (n0 :: name))) 0 (sB1 i0).
+  Proof.
+    intros Hn0 Hname. cbn [app]. rewrite (run_one it pre0 n0 _ i0 pfrom0 (sB1 i0)).
+    2:{ unfold fb_iter. cbn [fb_state pfrom0]. unfold fb_step, fb_gA, nchar0 in *. cbn [is_st_init]. unfold pf_set.
+        replace (i0 <? i0) with false by lia. replace (i0 - i0) with 0 by lia. destruct (ccls_of n0); try contradiction; reflexivity. }
+    rewrite (run_selfloop it nchar (sB1 i0) ltac:(intros p c r j Hc; apply name_loop; [reflexivity|exact Hc]) name _ _ (i0 + 1) Hname).
+    cbn [rev length]. rewrite <- app_assoc. cbn [app]. f_equal. unfold nnat. lia.
+  Qed.
+  Lemma sB1_ws i0 lu (pre : list byte) c0 r : is_ws c0 = true -> 0 < lu ->
+    it pre (c0 :: r) (i0 + lu) (sB1 i0) = fb_lws h pre (c0 :: r) (i0 + lu) (sB2 i0 lu).
+  Proof.
+    intros Hc Hlu. apply ws_class in Hc. unfold fb_iter. cbn [fb_state sB1]. unfold fb_step, fb_gA. rewrite Hc. cbn [is_st_nameoruri]. unfold pf_set, pf_extend. cbn [fb_soffs fb_v sB1 po pl].
+    replace (i0 + lu <? i0) with false by lia. replace (i0 + lu - i0) with lu by lia. reflexivity.
+  Qed.
+  Theorem nameaddr_bare_eol (junk : list byte) n0 (name sp : list byte) x tail : nchar0 n0 -> Forall nchar name -> spaces sp -> is_sp x = false ->
+    let i0 := nnat (length junk) in let lu := nnat (length (n0 :: name)) in
+    parse_nameaddr h (junk ++ (n0 :: name) ++ sp ++ CR :: LF :: x :: tail) i0 pfrom0 = Done (i0 + lu + nnat (length sp) + 2) EOk (fB i0 lu).
+  Proof.
+    intros Hn0 Hname Hsp Hx i0 lu. unfold parse_nameaddr. rewrite parse_at. rewrite (bare_first (rev junk) n0 name _ i0 Hn0 Hname). fold lu.
+    rewrite run_after. destruct (eol_first sp x tail Hsp) as (c0 & r & Er & Hc0).
+    assert (Hlu : 0 < lu) by (subst lu; cbn [length]; unfold nnat; lia).
+    rewrite Er. rewrite (sB1_ws i0 lu _ c0 r Hc0 Hlu). unfold fb_lws. rewrite <- Er. rewrite (skipLWS_sp_eol sp x tail Hsp Hx).
+    unfold fb_endOfHdr, fb_close. cbn [fb_state sB2]. cbn [after]. f_equal; try reflexivity; unfold nnat; lia.
+  Qed.
+  Theorem nameaddr_bare_comma (junk : list byte) n0 (name g y : list byte) : multipleValsOk h = true -> nchar0 n0 -> Forall nchar name -> gp g ->
+    let i0 := nnat (length junk) in let lu := nnat (length (n0 :: name)) in
+    parse_nameaddr h (junk ++ (n0 :: name) ++ g ++ (44 : byte) :: y) i0 pfrom0 = Done (i0 + lu + nnat (length g) + 1) EMoreValues (fB i0 lu).
+  Proof.
+    intros Hmv Hn0 Hname Hg i0 lu. unfold parse_nameaddr. rewrite parse_at. rewrite (bare_first (rev junk) n0 name _ i0 Hn0 Hname). fold lu.
+    assert (Hlu : 0 < lu) by (subst lu; cbn [length]; unfold nnat; lia).
+    destruct Hg as [->|Hw].
+    - cbn [app length]. rewrite run_after.
+      match goal with |- after it ?P _ _ ?X = _ => assert (E : X = Ret (i0 + lu + 1) EMoreValues (fB i0 lu)) end.
+      { unfold fb_iter. cbn [fb_state sB1]. unfold fb_step, fb_gA. change (ccls_of 44) with KComma. unfold fb_comma. rewrite Hmv. unfold fb_moreValues, fb_endOfHdr, fb_close.
+        cbn [fb_state sB1 fb_soffs fb_v po pl]. unfold pf_set, pf_extend. cbn [po pl].
+        set (t := N.min _ _). assert (Ht : t <= lu) by (subst t; lia).
+        destruct (N.eq_dec t 0) as [Z|NZ].
+        - rewrite Z, N.sub_0_r. replace (i0 + lu <? i0) with false by lia. replace (i0 + lu - i0) with lu by lia. reflexivity.
+        - exfalso. subst t. apply NZ. clear NZ.
+          (* the byte before the comma is the last byte of the URI: not white space *)
+          destruct (last_nonws (n0 :: name) nchar nchar_nonws ltac:(discriminate)
+                      ltac:(constructor; [unfold nchar0, nchar in *; destruct (ccls_of n0); try contradiction; exact I|exact Hname])) as (N' & ln & EN & Hln).
+          rewrite EN, rev_app_distr. cbn [rev app span]. rewrite Hln. cbn [nnat]. unfold nnat. cbn. lia. }
+      rewrite E. cbn [after]. f_equal. unfold nnat. lia.
+    - rewrite (g_lws h _ g 44 y (i0 + lu) (sB1 i0) (sB2 i0 lu) (fun c0 r H => sB1_ws i0 lu _ c0 r H Hlu) Hw eq_refl). rewrite run_after.
+      match goal with |- after it ?P _ _ ?X = _ => assert (E : X = Ret (i0 + lu + nnat (length g) + 1) EMoreValues (fB i0 lu)) end.
+      { unfold fb_iter. cbn [fb_state sB2]. unfold fb_step, fb_gA. change (ccls_of 44) with KComma. unfold fb_comma. rewrite Hmv. reflexivity. }
+      rewrite E. reflexivity.
+  Qed.
+End Bare.
